@@ -17,15 +17,16 @@ Definition to_obs (o : outcome) : obs :=
   | Returned => ORet
   | Raised c st r => OExc (mro c) st r
   | ImportFails => OImport
+  | Crashed => OExc [[84;121;112;101;69;114;114;111;114]; [69;120;99;101;112;116;105;111;110]] 0 false   (* TypeError, Exception *)
   end.
 
 (* input: transport kind, all operations of the package, index of the called one, status answered *)
-Definition input := (kind * spec * nat * N)%type.
+Definition input := (kind * spec * list str * nat * N)%type.   (* + model class names imported by the endpoints module *)
 Definition the_op (s : spec) (i : nat) : op := nth i s [].
 
 Definition model_obs (x : input) : obs :=
-  let '(k, s, i, st) := x in to_obs (call k s (the_op s i) st).
-(* no guard conjunct is left: F06a-d are fixed and C06_full holds *)
+  let '(k, s, ms, i, st) := x in to_obs (call_ns k s ms ms (the_op s i) st).   (* the harness's specs have one module: all = ms *)
+(* no guard conjunct is left: F06a-e are fixed *)
 Definition guards (x : input) : list bool := [].
 Definition run (cases : list (input * obs)) : list N := report obs_eqb model_obs guards cases.
 
